@@ -523,7 +523,8 @@ class PteraTransformer(NodeTransformer):
         # Names that only annotations use count if they exist
         pile = DictPile(glb, __builtins__, default=ABSENT)
         self.used |= {v for v in evc.ann_used if pile[v] is not ABSENT}
-        self.external = self.used - evc.assigned - evc.free
+        # (__debug__ is a constant of the compiler: it cannot be assigned)
+        self.external = self.used - evc.assigned - evc.free - {"__debug__"}
         self.provenance = evc.provenance
         for ext in self.external:
             self.provenance[ext] = "external"
